@@ -11,6 +11,7 @@ package k8s
 import (
 	"context"
 	"log/slog"
+	"regexp"
 
 	api_v1 "k8s.io/api/core/v1"
 	discovery_v1 "k8s.io/api/discovery/v1"
@@ -251,4 +252,16 @@ func (v *VerifC06) Attached() []string {
 		}
 	}
 	return out
+}
+
+// VerifC06Regexps exposes the validator regular expressions of this package whose hand
+// transcriptions in coq/Tmpl/Validators.v are compared with them on a corpus on every run.
+func VerifC06Regexps() map[string]*regexp.Regexp {
+	return map[string]*regexp.Regexp{
+		"ing_path@k8s.pathRegexp":                            pathRegexp,
+		"escaped@k8s.escapedStringsFmtRegexp":                escapedStringsFmtRegexp,
+		"realm@k8s.validAnnotationValueRegex":                validAnnotationValueRegex,
+		"realm@k8s.realmFmtRegexp":                           realmFmtRegexp,
+		"jwt_token@k8s.validJWTTokenAnnotationValueRegex":    validJWTTokenAnnotationValueRegex,
+	}
 }
